@@ -493,3 +493,37 @@ Proof.
   intros buildf sitef fmt Hs Hb. unfold trim_site_outcome, built_as_tree. cbn [andb].
   rewrite Hs, Hb. reflexivity.
 Qed.
+
+(* ------------------------------------------------------------------ the slices are taken from the string the guard measured *)
+Lemma take_drop_id : forall n s, (take n s ++ drop n s)%string = s.
+Proof.
+  induction n as [|n IH]; intros s; destruct s as [|a r]; cbn; auto. rewrite IH. reflexivity.
+Qed.
+
+Lemma slices_recompose_lemma : forall id n a b,
+  slice_to id n = Ok a -> slice_from id n = Ok b -> (a ++ b)%string = id.
+Proof.
+  intros id n a b Ha Hb. unfold slice_to, slice_from in *.
+  destruct (n <=? String.length id)%nat; [|discriminate].
+  inversion Ha; inversion Hb; subst. apply take_drop_id.
+Qed.
+
+(* the LLVM build-id candidate of locate_candidates is [path; id[:2]; id[2:] ++ ".debug"] of the RAW id *)
+Lemma locate_llvm_candidate_lemma : forall pb pd path file id globbed l,
+  (2 < String.length id)%nat ->
+  locate_candidates pb pd path file id globbed = Ok l ->
+  In [path; take 2 id; (drop 2 id ++ ".debug")%string] l.
+Proof.
+  intros pb pd path file id globbed l Hlen H.
+  assert (E0 : (id =? "")%string = false).
+  { destruct (id =? "")%string eqn:E; [|reflexivity]. apply String.eqb_eq in E. subst id. cbn in Hlen. lia. }
+  assert (E : (2 <? String.length id)%nat = true) by (apply Nat.ltb_lt; exact Hlen).
+  assert (E2 : (2 <=? String.length id)%nat = true) by (apply Nat.leb_le; lia).
+  set (llvm := [path; take 2 id; (drop 2 id ++ ".debug")%string]) in *.
+  assert (H' : exists pre post, l = (pre ++ llvm :: post)%list).
+  { unfold locate_candidates in H. rewrite E0, E in H. unfold slice_to, slice_from in H. rewrite E2 in H.
+    unfold bind in H. inversion H.
+    eexists ([_] ++ map (fun g : string => [g]) globbed ++ [_])%list, _.
+    rewrite <- !app_assoc. cbn [app]. reflexivity. }
+  destruct H' as (pre & post & ->). apply in_or_app. right. left. reflexivity.
+Qed.
